@@ -97,6 +97,14 @@ class _Expand(ast.NodeTransformer):
     visit_AsyncFunctionDef = visit_Lambda = visit_FunctionDef
 
 
+def _is_alias_expr(e):
+    """a plain name or attribute chain: replacing an alias `h = self._h` by `self._h` is sound
+    even if the object is updated through the alias"""
+    while isinstance(e, ast.Attribute):
+        e = e.value
+    return isinstance(e, ast.Name)
+
+
 def _base_name(n):
     b = n
     while isinstance(b, (ast.Subscript, ast.Attribute)):
@@ -120,6 +128,7 @@ def inline_temps(func, keep=(), names_only=False):
     loads = {}
     name_stores = []          # (pos, name)
     heap_stores = []          # (pos, text)
+    call_events = []          # (pos, names possibly updated in place by a call made for effect)
     nested = []
     for n in ast.walk(f):
         if n is f:
@@ -167,9 +176,16 @@ def inline_temps(func, keep=(), names_only=False):
                 b = _base_name(n.value.func.value)
                 if b:
                     mutated.add(b)
+            ev = set()
+            if isinstance(n.value.func, ast.Attribute):
+                b = _base_name(n.value.func.value)
+                if b:
+                    ev.add(b)
             for arg in list(n.value.args) + [k.value for k in n.value.keywords]:
                 if isinstance(arg, ast.Name):
                     mutated.add(arg.id)
+                    ev.add(arg.id)
+            call_events.append((_pos(n), ev))
     for n in nested:
         for x in ast.walk(n):
             if isinstance(x, ast.Name):
@@ -203,7 +219,7 @@ def inline_temps(func, keep=(), names_only=False):
                 expr = ast.Subscript(value=val, slice=ast.Constant(idx), ctx=ast.Load())
         if names_only and not isinstance(expr, ast.Name):
             continue
-        if nm in mutated and not isinstance(expr, ast.Name):
+        if nm in mutated and not _is_alias_expr(expr):
             continue
         expr = _Expand(env).visit(_dc(expr))
         ast.fix_missing_locations(expr)
@@ -221,10 +237,12 @@ def inline_temps(func, keep=(), names_only=False):
             if _pos(r) <= end:
                 ok = False
                 break
-            if chain_of(_stmt_of(r))[:len(bchain)] != bchain:
+            rst = _stmt_of(r)
+            if chain_of(rst)[:len(bchain)] != bchain:
                 ok = False
                 break
-            last = max(last, _pos(r))
+            # what the statement of the read does itself happens after the read
+            last = max(last, _pos(rst))
         if ok and reads:
             for pos, name in name_stores:
                 if end < pos < last and name in fv:
@@ -240,6 +258,15 @@ def inline_temps(func, keep=(), names_only=False):
                         break
                     # an element store `C[..] = v` may hit any element / slice read from C
                     if cont is not None and (cont in heap or cont in fv):
+                        ok = False
+                        break
+            if ok:
+                # calls made for their effect: `self.m(..)` may change any self.<attr> the
+                # expression reads, `f(x)` / `x.m()` may update x in place
+                heap_roots = {h.split('.')[0].split('[')[0] for h in heap}
+                for pos, ev in call_events:
+                    if end < pos < last and ((ev & fv & heap_roots) or
+                                             (ev - {'self', 'cls'}) & fv):
                         ok = False
                         break
         if not ok:
